@@ -75,7 +75,7 @@ func allPropsUnsorted() []*propInfo {
 				"C04.1 the pull selection requires attempt_at <= now on every path and the next-attempt lookup does not; " +
 				"C04.2 the selection takes FOR UPDATE SKIP LOCKED on deliveries whenever the dialect is not SQLite (no other condition); " +
 				"C04.3 selection and lease update run on the same tx of one closure; each delivered element adds exactly 1 to attempts and sets attempt_at from the SAME element's deadline, which is now + NextDelayFor(sub, attempts+1) (+jitter); the update loop covers every delivered element; " +
-				"C04.4 modify-deadline carries `attempt_at < X` over the same X it sets, skipped only when Delay <= 0; C04.5 nack reschedules by now + NextDelayFor(sub, attempts); C04.6 reported attempt = attempts + 1. " +
+				"C04.4 modify-deadline carries `attempt_at < X` over the same X it sets, skipped only when Delay <= 0; C04.5 nack reschedules each delivery by now + the delay NextDelayFor(sub, d.Attempts) returned for that same delivery; C04.6 reported attempt = attempts + 1. " +
 				"NOT decided: the numeric backoff formula, jitter bound and saturation; PostgreSQL row-lock semantics; 'handed out again once the deadline has passed'.",
 			Assumptions: []string{k1Assumption, "FOR UPDATE SKIP LOCKED / SQLite immediate transactions give exclusivity (database semantics)"},
 			Rules: []ruleFn{
@@ -109,7 +109,7 @@ func allPropsUnsorted() []*propInfo {
 				"C06.1 deadLetterDelivery is called only from pull, nack and the sweep; C06.2 the pull and nack call sites are dominated by HasFullDeadLetterConfig() ∧ attempts >= *MaxDeliveryAttempts, HasFullDeadLetterConfig requires max attempts set and > 0 and a topic, the sweep selects outstanding due rows past the limit of live subscriptions with a full policy; " +
 				"C06.3 after a successful dead-letter call the same iteration neither appends the delivery to the pull result nor reschedules it; " +
 				"C06.4 the source delivery (data.DeliveryID) is completed on the same tx on every successful path, the forward set is the live subscriptions of the live dead-letter topic, every one reaches deliverToSubscription, the forwarded message is the original row loaded whole by id; " +
-				"C06.5 a nack's candidates are outstanding (id IN ids, completed_at IS NULL, expires_at > now). " +
+				"C06.5 a nack's candidates are outstanding (id IN ids, completed_at IS NULL, expires_at > now, in the query) and its dead-letter / reschedule loop walks the selected rows (each candidate once), not the request's id list. " +
 				"NOT decided: 'exactly once' under concurrent PostgreSQL transactions, counting N over histories, topology effects.",
 			Assumptions: []string{k1Assumption},
 			Rules: []ruleFn{
@@ -123,7 +123,7 @@ func allPropsUnsorted() []*propInfo {
 		{
 			ID: "C12",
 			Explanation: "Static necessary conditions of 'one live resource per name; Get/List show exactly the live set': " +
-				"C12.1 every lookup of a topic/subscription by name also requires deleted_at IS NULL (module-wide); C12.2 create checks for a live row of the name (→ ErrExists), maps a unique violation on save to ErrExists, and the handlers answer AlreadyExists for it; " +
+				"C12.1 every lookup of a topic/subscription by name also requires deleted_at IS NULL (module-wide); C12.2 create checks for a live row of the name (→ ErrExists), maps a unique violation on save to ErrExists, the handlers answer AlreadyExists for it, and no re-wrap of a possibly-storage error on that path cuts the error chain (fmt.Errorf without %w); " +
 				"C12.3 soft delete is {deleted_at:set, live:clear} together, by the three soft-deleters only; nobody clears deleted_at or re-sets live; hard deletes only by the prune jobs; " +
 				"C12.4 unique (name, live) on topics and subscriptions and unique name on snapshots in the ent schema and in the SQL migrations; " +
 				"C12.5 each List handler's prefix kind equals its entity's name-validator kind, keyset pagination is consistent (ORDER BY id ASC, id > token only when a token is given, LIMIT pageSize, next token = last SCANNED row iff a full page was scanned); " +
@@ -250,7 +250,7 @@ func allPropsUnsorted() []*propInfo {
 				"C11.1 (K3 lockset) in the streamer's goroutines `pending` and `fc` are accessed only with mu held; C11.2 every fetched delivery is recorded in pending (loop without early exit, keyed by delivery id) before any Send/SendBatch; " +
 				"C11.3 the fetch limits are the client limits minus a complete walk over pending (−1 message, −size bytes each, strict-bytes iff anything pending); C11.4 every removal from pending is followed by a wake-up of the sender before the goroutine blocks again (a monotone flag is followed by constant propagation); " +
 				"C11.5 (K6 intervals) effectiveFlowControl returns limits >= 1 for every int64 input on amd64 (and 386 in the thorough tier), initial limits are positive constants; C11.6 an over-budget message is skipped without ending the scan and is never appended; the byte counter accumulates; " +
-				"C11.7 ids acked or nacked on the stream leave pending, and the refresh goroutine removes exactly the ids of its under-lock snapshot that the database no longer reports as outstanding. " +
+				"C11.7 ids acked or nacked on the stream leave pending, and the refresh goroutine removes exactly the ids of its under-lock snapshot that the database no longer reports as outstanding, asking exactly `id IN snapshot ∧ completed_at IS NULL ∧ not expired`. " +
 				"NOT decided: the numeric invariant over interleavings, promptness.",
 			Assumptions: []string{k1Assumption, "sync.Mutex semantics; channel send on a buffered channel never blocks the waker"},
 			Rules: []ruleFn{
@@ -266,7 +266,7 @@ func allPropsUnsorted() []*propInfo {
 			Explanation: "Static necessary conditions of 'an injected fault fires exactly its count, only on matching calls': " +
 				"C18.1 the shared remaining count is accessed only through sync/atomic (plain reads only on by-value copies); C18.2 in Set.Check, with r the result of atomic.AddInt64(&d.Count,-1), the fault fires for r > 0 and r = 0 and, for r < 0, neither fires nor returns without re-matching (each sign decided separately on the CFG); " +
 				"C18.3 (K3 lockset) Set.faults is read under mu.RLock/Lock and written under mu.Lock; C18.4 Description.match returns true only with count > 0, equal operation, and every injected parameter present and equal; C18.5 prune/Current separate live from exhausted descriptions by count > 0; " +
-				"C18.6 the pooled parameter map of the gRPC interceptor is emptied before the request's fields are written. " +
+				"C18.6 the pooled parameter map of the gRPC interceptor is emptied unconditionally before the request's fields are written (also before a closure that writes it is handed out). " +
 				"NOT decided: the exact count min(N, matches) over schedules (C18.1/2 are its memory-ordering and re-check conditions), request-to-parameter extraction for all messages.",
 			Assumptions: []string{"sync/atomic and sync.RWMutex semantics"},
 			Rules: []ruleFn{
@@ -281,7 +281,7 @@ func allPropsUnsorted() []*propInfo {
 		{
 			ID: "C19",
 			Explanation: "Static necessary conditions of the HTTP push contract: " +
-				"C19.1 the status switch acknowledges exactly for {102,200,201,202,204} (read from the comparisons of resp.StatusCode whose true edge reaches the outcome queue with an ack queue only) and transport errors and every other status reach the nack queue; " +
+				"C19.1 the status switch acknowledges exactly for {102,200,201,202,204} (read from the comparisons of resp.StatusCode whose true edge reaches the outcome queue with an ack queue only) transport errors and every other status reach the nack queue, and every non-panicking exit of the response goroutine passes the report to one of the queues; " +
 				"C19.2 (K9) envelope fields derive from their delivery fields only (Data = base64(payload), Attributes, MessageId, OrderingKey, PublishTime, Subscription, DeliveryAttempt); " +
 				"C19.3 (K6 intervals) inductive invariant of the adaptive window: assuming maxMessages ∈ [1,1000] on entry of Receive every store keeps it there, initial value is a constant in range; " +
 				"C19.4 (K3) window state is accessed only under c.mu (the test-only reader CurrentFlowControl is the named exception); C19.5 Receive reports ids from the ack queues as Ack and ids from the nack queue as Nack. " +
@@ -333,8 +333,8 @@ func allPropsUnsorted() []*propInfo {
 			ID: "C17",
 			Explanation: "Static necessary conditions of 'configuration round-trips': " +
 				"C17.1 (K9 data dependence) every configuration field CreateSubscription accepts flows request → action parameter → its column, and every such column is read back by entSubscriptionToGrpc into the corresponding response field (labels, retention, expiration TTL, ordering flag, filter, retry policy, dead-letter policy, push endpoint; topics: labels); " +
-				"C17.2 update-mask locality: in UpdateSubscription / UpdateTopic the set of columns mutated under each mask path equals the frozen table, no column is mutated outside a mask path, unknown paths are rejected, and the no-op shortcut that skips the save checks every kind of mutation (set / cleared / added) the handler can apply. " +
-				"C17.3 in the stored-duration codec no floating-point value computed from the parsed digits is truncated to an integer (a length-derived power of ten is exact and allowed; math.Round first is allowed). NOT decided: the rest of the interval codec (all durations / all PostgreSQL interval strings — numeric), defaults' values, sequences of updates.",
+				"C17.2 update-mask locality: in UpdateSubscription / UpdateTopic the set of columns mutated under each mask path equals the frozen table, no column is mutated outside a mask path, unknown paths are rejected, and the no-op shortcut that skips the save checks every kind of mutation (set / cleared / added) the handler can apply; under a mask path with several stored columns every path sets or clears each of them (replace, not merge). " +
+				"C17.3 in the stored-duration codec no floating-point value computed from the parsed digits is truncated to an integer (a length-derived power of ten is exact and allowed; math.Round first is allowed) and a duration is never represented as a float (no Seconds/Minutes/Hours, FormatFloat/ParseFloat, or 64-bit-count-to-float conversion). NOT decided: the rest of the interval codec (all durations / all PostgreSQL interval strings — numeric), defaults' values, sequences of updates.",
 			Assumptions: []string{k1Assumption, "protobuf/ent field names correspond one-to-one as in the generated code"},
 			Rules: []ruleFn{
 				{ID: "C17.1", Doc: "[dep] create mapping is complete", Run: ruleC17_1},
